@@ -188,6 +188,10 @@ class RecTF:
             def from_tensor_slices(x):
                 return RecDataset(rec, "from_tensor_slices", list(x))
 
+            @staticmethod
+            def list_files(file_pattern, shuffle=None, seed=None, name=None):
+                return RecDataset(rec, "list_files", list(file_pattern) if not isinstance(file_pattern, str) else [file_pattern])
+
         class _Data:
             Dataset = _Dataset
 
